@@ -52,14 +52,18 @@ def obligations(repo):
         for n in ast.walk(s):
             if isinstance(n, ast.If) and any(isinstance(x, ast.Raise) for x in n.body):
                 guards.append(ast.unparse(n.test))
-    ob("omitted-abstract-member-is-rejected", any("is_abstract" in g and "not in overloads" in g for g in guards), guards)
+    # the name bound to the result of _build_overloads(...) (whatever it is called)
+    ovl_names = {n.targets[0].id for n in ast.walk(init) if isinstance(n, ast.Assign) and len(n.targets) == 1 and isinstance(n.targets[0], ast.Name)
+                 and isinstance(n.value, ast.Call) and isinstance(n.value.func, ast.Name) and n.value.func.id == "_build_overloads"}
+    ob("omitted-abstract-member-is-rejected", any(".is_abstract" in g and any(f"not in {o}" in g for o in ovl_names) for g in guards), guards)
     bo = helpers.get("_build_overloads")
     unk = []
     if bo is not None:
         for n in ast.walk(bo):
             if isinstance(n, ast.If) and any(isinstance(x, ast.Raise) for x in n.body):
                 unk.append(ast.unparse(n.test))
-    ob("unknown-member-name-is-rejected", any("not in members" in g for g in unk), unk)
+    mem_param = bo.args.args[1].arg if bo is not None and len(bo.args.args) > 1 else "members"
+    ob("unknown-member-name-is-rejected", any(f"not in {mem_param}" in g for g in unk), unk)
     # helpers called before registration register nothing themselves
     bad = [n for n, f in helpers.items() if n in ("_get_members", "_build_overloads") and registers(f)]
     ob("helpers-register-nothing", not bad, bad)
